@@ -4,10 +4,13 @@
 # usage: thorough_all.sh <repo> <harness-dir> <out> ID...
 repo=$1; hdir=$2; out=$3; shift 3
 mkdir -p "$out"
-for id in "$@"; do
+for spec in "$@"; do
+	id=${spec%%=*}
+	unset MXSIM_N
+	case $spec in *=*) export MXSIM_N=${spec#*=} ;; esac # ID=N: N cases per seed value instead of the plan's size
 	start=$(date +%s)
 	MXSIM_REPO=$repo MXSIM_HARNESS=$hdir MXSIM_OUT=$out/$id timeout 100m /verif/bin/mxsim check "$id" --tier thorough >"$out/$id.log" 2>&1
 	rc=$?
-	echo "$id rc=$rc $(( $(date +%s) - start ))s $(grep -E 'cases,' "$out/$id.log" | tail -1 | cut -c1-300)" >>"$out/summary.txt"
+	echo "$id n=${MXSIM_N:-plan} rc=$rc $(( $(date +%s) - start ))s $(grep -E 'cases,' "$out/$id.log" | tail -1 | cut -c1-300)" >>"$out/summary.txt"
 done
 echo done >>"$out/summary.txt"
